@@ -31,6 +31,12 @@ pub struct Case {
     /// 0 auto, 1 always, 2 never, 3 default (no flag = auto)
     pub mode: u8,
     pub answer: Answer,
+    /// -v given this many times (0-2): logging must not change the contract
+    #[serde(default)]
+    pub verbose: u8,
+    /// stdout is /dev/full: every write of the logger fails with ENOSPC
+    #[serde(default)]
+    pub stdout_full: bool,
 }
 
 pub fn strategy() -> BoxedStrategy<Case> {
@@ -44,8 +50,8 @@ pub fn strategy() -> BoxedStrategy<Case> {
         3 => Just(Answer::EmulatedOk),
         2 => any::<u64>().prop_map(Answer::EmulatedSome),
     ];
-    (c01::strategy(), 0u8..4, ans)
-        .prop_map(|(mut base, mode, answer)| {
+    (c01::strategy(), 0u8..4, ans, prop_oneof![3 => Just(0u8), 1 => Just(1u8), 2 => Just(2u8)], prop::bool::weighted(0.3))
+        .prop_map(|(mut base, mode, answer, verbose, stdout_full)| {
             base.as_tree = true;
             base.reflink_never = false;
             // keep supervised runs short
@@ -64,7 +70,7 @@ pub fn strategy() -> BoxedStrategy<Case> {
                 }
                 f.content.segs.retain(|s| !matches!(s, Seg::Data(0, _) | Seg::Hole(0) | Seg::Zero(0)));
             }
-            Case { base, mode, answer }
+            Case { base, mode, answer, verbose, stdout_full }
         })
         .boxed()
 }
@@ -87,6 +93,9 @@ pub fn judge(c: &Case, rec: &mut Rec) -> Verdict {
     if mode != "default" {
         args.insert(0, format!("--reflink={}", mode).into_bytes());
     }
+    for _ in 0..c.verbose % 3 {
+        args.insert(0, b"-v".to_vec());
+    }
     let eff_mode = if mode == "default" { "auto" } else { mode };
     let rules = match c.answer {
         Answer::Real => vec![],
@@ -94,8 +103,15 @@ pub fn judge(c: &Case, rec: &mut Rec) -> Verdict {
         Answer::EmulatedOk => vec![Rule { sys: vec![Sys::Ficlone], path: PathSel::Sandbox, nth: Nth::All, action: Action::EmulateCloneOk }],
         Answer::EmulatedSome(seed) => vec![Rule { sys: vec![Sys::Ficlone], path: PathSel::Sandbox, nth: Nth::Prob(seed, 500), action: Action::EmulateCloneOk }],
     };
-    let out = Sup::run(sup_spec(&sb, args.clone(), rules, Sched::free()));
+    let mut spec = sup_spec(&sb, args.clone(), rules, Sched::free());
+    if c.stdout_full {
+        spec.stdout_to = Some(std::path::PathBuf::from("/dev/full"));
+    }
+    let out = Sup::run(spec);
     rec.eval(1);
+    if c.verbose % 3 > 0 {
+        rec.class(format!("verbose={}|stdout={}|{}", c.verbose % 3, if c.stdout_full { "/dev/full" } else { "file" }, mode));
+    }
     if out.setup_error.is_some() {
         return Verdict::Inconclusive(format!("supervisor {:?}", out.setup_error));
     }
@@ -213,6 +229,6 @@ impl Check for C15 {
         }
     }
     fn required_classes(&self, _tier: Tier) -> Vec<String> {
-        ["auto|", "always|", "never|", "default|", "emulated-ok", "emulated-some", "errno95", "errno22", "errno18", "errno5|", "|real|", "always|emulated-ok|parblock|", "always|emulated-ok|parfile|"].iter().map(|s| s.to_string()).collect()
+        ["auto|", "always|", "never|", "default|", "emulated-ok", "emulated-some", "errno95", "errno22", "errno18", "errno5|", "|real|", "always|emulated-ok|parblock|", "always|emulated-ok|parfile|", "verbose=2|stdout=/dev/full|auto", "verbose=2|stdout=/dev/full|always"].iter().map(|s| s.to_string()).collect()
     }
 }
